@@ -940,10 +940,13 @@ def ml_gmm_m_step(
             # The means were not re-estimated: the shortcut above is only valid
             # for mean = sum_px / n. Use the general second central moment
             #  var = 1/n * sum (P(x-mean)(x-mean))
-            #      = 1/n * (sum (Pxx) - 2 * mean * sum (Px)) + mean^2
+            #      = 1/n * (sum (Pxx) - 2 * mean * sum (Px) + mean^2 * sum (P))
+            # (a component without responsibility gets 0, i.e. its floor)
             machine.variances = (
-                statistics.sum_pxx - 2 * machine.means * statistics.sum_px
-            ) / thresholded_n[:, None] + np.power(machine.means, 2)
+                statistics.sum_pxx
+                - 2 * machine.means * statistics.sum_px
+                + np.power(machine.means, 2) * statistics.n[:, None]
+            ) / thresholded_n[:, None]
 
 
 def map_gmm_m_step(
